@@ -7,6 +7,7 @@ import CruxVerif.Lemmas.Bridge
 import CruxVerif.Lemmas.Deliver
 import CruxVerif.Lemmas.K2
 import CruxVerif.Lemmas.Refs
+import CruxVerif.Lemmas.OwnRun
 namespace Props.C02
 open M.Rt
 
@@ -133,11 +134,35 @@ theorem poll_never_adopts_foreign_channel (pn : Waker → Nat → World → Opti
   · intro hm; have := List.count_pos_iff.mpr hm; omega
   · intro hm; have := List.count_pos_iff.mpr hm; omega
 
+/-- OVER WHOLE RUNS (`…_partial`: task programs without combinators, held directly by a test; the full statement also
+    covers commands nested by `then / and / all / map_*` and the Core and Bridge hosts): for EVERY host-free task program —
+    any number of spawned tasks, `join!`, `select!`, streams, hand-offs, self-aborts — and EVERY history of resolutions,
+    drops, aborts and polls, in the world reached
+    (1) every request channel is referenced by AT MOST ONE suspended or queued task of the command — so a value resolved on a
+        request can be received by the task that waits on that request and by no other (with `response_reaches_exactly_the_asker`);
+    (2) no task references a channel that does not exist; every stored task is host-free (so K2 / `poll_parks` applies to it).
+    Global invariant `Own`, Lemmas/Own*.lean + TasksFrame + SlabSum (≈1000 lines): run_task (poll, then store / remove the
+    entry), spawning, finishing, aborting, settling, the shell's operations. -/
+theorem channels_unshared_over_runs_partial (is : List Instr) (hf : hostFreeIs is = true) (canon : Bool)
+    (acts : List M.Hosts.Action) (os : List M.Hosts.Obs) (d : M.Hosts.Direct)
+    (h : M.Hosts.runDirect (.task is) canon acts = some (os, d)) :
+    (∀ l, cmdCnt l (d.w.cmd d.cid) ≤ 1) ∧ (∀ l, d.w.leaves.length ≤ l → cmdCnt l (d.w.cmd d.cid) = 0) ∧
+    (∀ t ∈ (d.w.cmd d.cid).tasks.values, hostFreeB t.fut = true) :=
+  let o := M.Hosts.runDirect_own is hf canon acts os d h
+  ⟨o.one, o.rng, o.hft⟩
+
+/-- non-vacuity (kernel-evaluated; longer histories exhaust the kernel's memory on the fuel-driven loops and are exercised
+    by the correspondence check instead): a run exists, and its suspended task holds the one reference to channel 0 -/
+example : ∃ os d, M.Hosts.runDirect (.task [.req 1 1 (.lit 0)]) false [] = some (os, d) ∧ cmdCnt 0 (d.w.cmd d.cid) = 1 := by
+  refine ⟨_, _, rfl, ?_⟩
+  decide
+
 /-! Not proved here: over whole runs, that the values received by the task that issued request `r` are exactly those
     resolved on `r` and no other task receives them. That is the global invariant "leaf ids held by live blocks are
     pairwise distinct", of which `delivery_channel_private` is the allocation step and `poll_keeps_channels_unshared` /
-    `poll_never_adopts_foreign_channel` the poll step (host-free blocks); lifting them over whole runs — nested commands,
-    every task of every command — is not done; it is covered by the correspondence
+    `poll_never_adopts_foreign_channel` the poll step (host-free blocks) and `channels_unshared_over_runs_partial` the lift
+    over whole runs for one command without combinators; for nested commands (which needs the hosting-forest invariant)
+    and the Core / Bridge hosts it is not done; those are covered by the correspondence
     check (unique payloads, look-alike operations) and listed under `stated_not_proved` in the evidence. -/
 
 example : (resolveReq (.once 0) 5 { leaves := [{}] }).2.1 = .ok := by decide
